@@ -83,6 +83,9 @@ func c57(c *Ctx) {
 		c.GuardedBy(GuardSpec{Label: "cache-map", Mu: mu, Fields: []*types.Var{fCache}, Scope: c.scope(cp),
 			Locked: map[string]bool{"internal/cache.TimeoutCache.removeInternal": true}})
 		c.WhoMayMutate("cacheEntry.deleted", fDel, c.scope(cp), "internal/cache.TimeoutCache.removeInternal")
+		// entries leave the map, and timers are stopped, only through the paths that honour the deleted flag
+		c.WhoMayMutate("TimeoutCache.cache", fCache, c.scope(cp), "internal/cache.NewTimeoutCache", "internal/cache.TimeoutCache.Add", "internal/cache.TimeoutCache.removeInternal")
+		c.WhoMayCall("Timer.Stop", CalleeX("time", "Timer.Stop"), c.scope(cp), "internal/cache.TimeoutCache.removeInternal")
 		// Clear: callbacks only when requested, only for entries it removed itself
 		cl := c.fn(cp, "TimeoutCache.Clear")
 		for _, cb := range callsIn(cl, FieldCall(fCb)) {
